@@ -72,6 +72,8 @@ var lgTable = []lgEntry{
 	{Rule: "L1", Func: "tensor.(StdEng).MatVecMul", Site: "whichblas.", MustStep: "$r.checkThreeFloatComplexTensors($a, $b, $prealloc)", Props: []string{"C09"}, Why: "every path to BLAS passes the shared operand check"},
 	{Rule: "L1", Func: "tensor.(StdEng).Outer", Site: "whichblas.", MustStep: "$r.checkThreeFloatComplexTensors($a, $b, $prealloc)", Props: []string{"C09"}, Why: "every path to BLAS passes the shared operand check"},
 	{Rule: "L1", Func: "tensor.(StdEng).Inner", Site: "whichblas.", MustStep: "$r.checkTwoFloatComplexTensors($a, $b)", Props: []string{"C09"}, Why: "every path to BLAS passes the shared operand check"},
+	{Rule: "L1", Func: "tensor.(Float64Engine).Inner", Site: "whichblas.", Goal: "(%AD.DataOrder().IsContiguous() && %BD.DataOrder().IsContiguous())", Props: []string{"C09", "C20"}, Why: "the specialised engine's dot product walks both backing arrays with unit stride: views with gaps are refused as the default engine refuses them (finding 79)"},
+	{Rule: "L1", Func: "tensor.(Float32Engine).Inner", Site: "whichblas.", Goal: "(%AD.DataOrder().IsContiguous() && %BD.DataOrder().IsContiguous())", Props: []string{"C09", "C20"}, Why: "the specialised engine's dot product walks both backing arrays with unit stride: views with gaps are refused as the default engine refuses them (finding 79)"},
 	{Rule: "L1", Func: "tensor.(StdEng).checkThreeFloatComplexTensors", Site: "return ", NotAfter: "errors.", Goal: "(($ret0.DataOrder().IsContiguous() && $ret1.DataOrder().IsContiguous()) && $ret2.DataOrder().IsContiguous())", Props: []string{"C09"}, Why: "a view with gaps is not the matrix BLAS is told about: the check accepts only packed operands and result (a pending lazy transpose is expressed through the flags, rule LD)"},
 	{Rule: "L1", Func: "tensor.(StdEng).checkTwoFloatComplexTensors", Site: "return ", NotAfter: "errors.", Goal: "($ret0.DataOrder().IsContiguous() && $ret1.DataOrder().IsContiguous())", Props: []string{"C09"}, Why: "a view with gaps is not the vector BLAS is told about"},
 	// ---- transposition shortcuts (C03) and destination normalisation (C09, C07) ----------------------
@@ -117,6 +119,8 @@ var lgTable = []lgEntry{
 	{Rule: "L1", Func: "tensor.(Float32Engine).Add", Site: "V.", Goal: "(!$a.RequiresIterator() && !$b.RequiresIterator())", Props: []string{"C20"}, Why: "the vecf fast path reads raw storage of both operands"},
 	{Rule: "L3", Func: "tensor.(Float64Engine).Add", Site: "V.", Goal: "$a.DataOrder().HasSameOrder($b.DataOrder())", Props: []string{"C20", "C16"}, Why: "raw addition of a row-major and a column-major operand pairs the wrong elements"},
 	{Rule: "L3", Func: "tensor.(Float32Engine).Add", Site: "V.", Goal: "$a.DataOrder().HasSameOrder($b.DataOrder())", Props: []string{"C20", "C16"}, Why: "raw addition of a row-major and a column-major operand pairs the wrong elements"},
+	{Rule: "L2", Func: "tensor.(Float64Engine).Add", Site: "V.", Goal: "!%useIter", Props: []string{"C20", "C16", "C07"}, Why: "the iterator decision of the shared operand preparation covers the destination (it requires an iterator, or has the other data order): the flat vecf kernels must not run once it was positive (finding 80)"},
+	{Rule: "L2", Func: "tensor.(Float32Engine).Add", Site: "V.", Goal: "!%useIter", Props: []string{"C20", "C16", "C07"}, Why: "the iterator decision of the shared operand preparation covers the destination: the flat vecf kernels must not run once it was positive (finding 80)"},
 	{Rule: "L2", Func: "tensor.(Float64Engine).FMA", Site: "V.", Goal: "!%useIter", Props: []string{"C20"}, Why: "the raw kernel must not run once the iterator decision was taken"},
 	{Rule: "L2", Func: "tensor.(Float32Engine).FMA", Site: "V.", Goal: "!%useIter", Props: []string{"C20"}, Why: "the raw kernel must not run once the iterator decision was taken"},
 	{Rule: "L2", Func: "tensor.(Float64Engine).FMAScalar", Site: "execution.MulIncrVS", Goal: "!%useIter", Props: []string{"C20"}, Why: "the raw kernel must not run after the iterator kernel already did the work"},
